@@ -7,7 +7,7 @@ for d in sorted(glob.glob('/verif/seeded/*/')):
     det = json.load(open(d + 'detected.json')) if os.path.exists(d + 'detected.json') else {}
     caught = [c for c in det.get('caught_by', []) if c != 'no-failing-input-found']
     first = m.get('first_run', '')
-    rows.append((m['id'], m['what'].replace('|', '/'), ', '.join(caught[:4]) + (f' (+{len(caught) - 4})' if len(caught) > 4 else '') or 'NOT DETECTED', first))
+    rows.append((m['id'], (m['what'][:170] + ('…' if len(m['what']) > 170 else '')).replace('|', '/'), ', '.join(caught[:4]) + (f' (+{len(caught) - 4})' if len(caught) > 4 else '') or 'NOT DETECTED', first))
 print('| seed | change (short) | caught by | first run |\n|---|---|---|---|')
 for r in rows:
     print('| ' + ' | '.join(r) + ' |')
